@@ -25,17 +25,18 @@ Tids == 0..12
 
 VARIABLES l, starts, outcome, derefReturned, doneTrue, cancTrue, cancelTrue, skip, nscen,
           invDerefRet,   \* [tid -> had a deref returned when this thread's current op was invoked]
-          invDoneTrue, invCancTrue, invCancelTrue
+          invDoneTrue, invCancTrue, invCancelTrue,
+          uncAfter       \* future-cancelled? has answered false to a question asked after some deref had returned
 vars == <<l, starts, outcome, derefReturned, doneTrue, cancTrue, cancelTrue, skip, nscen,
-          invDerefRet, invDoneTrue, invCancTrue, invCancelTrue>>
+          invDerefRet, invDoneTrue, invCancTrue, invCancelTrue, uncAfter>>
 
 F == [t \in Tids |-> FALSE]
 Init == /\ l = 1 /\ starts = 0 /\ outcome = "" /\ derefReturned = FALSE /\ doneTrue = FALSE /\ cancTrue = FALSE
         /\ cancelTrue = FALSE /\ skip = FALSE /\ nscen = 0
-        /\ invDerefRet = F /\ invDoneTrue = F /\ invCancTrue = F /\ invCancelTrue = F
+        /\ invDerefRet = F /\ invDoneTrue = F /\ invCancTrue = F /\ invCancelTrue = F /\ uncAfter = FALSE
 
 Keep == UNCHANGED <<starts, outcome, derefReturned, doneTrue, cancTrue, cancelTrue, nscen, invDerefRet, invDoneTrue,
-                    invCancTrue, invCancelTrue>>
+                    invCancTrue, invCancelTrue, uncAfter>>
 Reject(why) == PrintT("REJECT " \o ToString(l) \o " " \o why) /\ skip' = TRUE /\ l' = l + 1 /\ Keep
 
 Step ==
@@ -44,12 +45,12 @@ Step ==
      IF e.ev = "begin" THEN
        /\ starts' = 0 /\ outcome' = "" /\ derefReturned' = FALSE /\ doneTrue' = FALSE /\ cancTrue' = FALSE
        /\ cancelTrue' = FALSE /\ skip' = FALSE /\ nscen' = nscen + 1 /\ l' = l + 1
-       /\ invDerefRet' = F /\ invDoneTrue' = F /\ invCancTrue' = F /\ invCancelTrue' = F
+       /\ invDerefRet' = F /\ invDoneTrue' = F /\ invCancTrue' = F /\ invCancelTrue' = F /\ uncAfter' = FALSE
      ELSE IF skip THEN l' = l + 1 /\ UNCHANGED <<skip>> /\ Keep
      ELSE IF e.ev = "start" THEN
        IF starts >= 1 THEN Reject("P1: the body was started a second time")
        ELSE starts' = 1 /\ l' = l + 1 /\ UNCHANGED <<outcome, derefReturned, doneTrue, cancTrue, cancelTrue, skip, nscen,
-                                                     invDerefRet, invDoneTrue, invCancTrue, invCancelTrue>>
+                                                     invDerefRet, invDoneTrue, invCancTrue, invCancelTrue, uncAfter>>
      ELSE IF e.ev = "end" THEN
        \* exactly once; a body whose context was cancelled before its first form ran shows no effect
        IF e.val > 1 \/ (e.val = 0 /\ ~cancelTrue) THEN Reject("P1: the body's effect was observed " \o ToString(e.val) \o " times")
@@ -61,30 +62,35 @@ Step ==
      ELSE IF e.ev = "inv" THEN
        /\ invDerefRet' = [invDerefRet EXCEPT ![t] = derefReturned] /\ invDoneTrue' = [invDoneTrue EXCEPT ![t] = doneTrue]
        /\ invCancTrue' = [invCancTrue EXCEPT ![t] = cancTrue] /\ invCancelTrue' = [invCancelTrue EXCEPT ![t] = cancelTrue]
-       /\ l' = l + 1 /\ UNCHANGED <<starts, outcome, derefReturned, doneTrue, cancTrue, cancelTrue, skip, nscen>>
+       /\ l' = l + 1 /\ UNCHANGED <<starts, outcome, derefReturned, doneTrue, cancTrue, cancelTrue, skip, nscen, uncAfter>>
      ELSE IF e.ev = "res" /\ e.op = "deref" THEN
        IF e.out = "ctx" THEN l' = l + 1 /\ UNCHANGED skip /\ Keep      \* the caller's context ended
        ELSE IF outcome # "" /\ outcome # e.out THEN Reject("P2: derefs returned different outcomes: " \o outcome \o " / " \o e.out)
        ELSE /\ outcome' = e.out /\ derefReturned' = TRUE /\ l' = l + 1
-            /\ UNCHANGED <<starts, doneTrue, cancTrue, cancelTrue, skip, nscen, invDerefRet, invDoneTrue, invCancTrue, invCancelTrue>>
+            /\ UNCHANGED <<starts, doneTrue, cancTrue, cancelTrue, skip, nscen, invDerefRet, invDoneTrue, invCancTrue, invCancelTrue, uncAfter>>
      ELSE IF e.ev = "res" /\ e.op = "done?" THEN
        IF e.val = 0 /\ invDoneTrue[t] THEN Reject("P3: future-done? went back from true to false")
        ELSE IF e.val = 0 /\ invDerefRet[t] THEN Reject("P4: a deref had returned but future-done? answered false")
        ELSE IF e.val = 0 /\ invCancelTrue[t] THEN Reject("P6: future-cancel had answered true but future-done? answered false")
        ELSE /\ doneTrue' = (doneTrue \/ e.val = 1) /\ l' = l + 1
-            /\ UNCHANGED <<starts, outcome, derefReturned, cancTrue, cancelTrue, skip, nscen, invDerefRet, invDoneTrue, invCancTrue, invCancelTrue>>
+            /\ UNCHANGED <<starts, outcome, derefReturned, cancTrue, cancelTrue, skip, nscen, invDerefRet, invDoneTrue, invCancTrue, invCancelTrue, uncAfter>>
      ELSE IF e.ev = "res" /\ e.op = "cancelled?" THEN
        IF e.val = 0 /\ invCancTrue[t] THEN Reject("P3: future-cancelled? went back from true to false")
        ELSE IF e.val = 0 /\ invCancelTrue[t] THEN Reject("P6: future-cancel had answered true but future-cancelled? answered false")
        ELSE IF e.val = 1 /\ ~cancelTrue /\ ~(\E k \in 1..l : Trace[k].ev = "inv" /\ Trace[k].op = "cancel")
             THEN Reject("future-cancelled? is true although nobody called future-cancel")
        ELSE /\ cancTrue' = (cancTrue \/ e.val = 1) /\ l' = l + 1
+            /\ uncAfter' = (uncAfter \/ (e.val = 0 /\ invDerefRet[t]))
             /\ UNCHANGED <<starts, outcome, derefReturned, doneTrue, cancelTrue, skip, nscen, invDerefRet, invDoneTrue, invCancTrue, invCancelTrue>>
      ELSE IF e.ev = "res" /\ e.op = "cancel" THEN
        IF e.val = 1 /\ invDerefRet[t] /\ ~invCancelTrue[t] /\ ~invCancTrue[t]
        THEN Reject("P5: future-cancel on a future that had completed uncancelled answered true")
+       \* ... also when the cancel was invoked earlier: future-cancelled? answered false AFTER the completion, so the
+       \* cancel took effect after the completion and must answer false
+       ELSE IF e.val = 1 /\ uncAfter /\ ~cancelTrue
+       THEN Reject("P5: future-cancel answered true although future-cancelled? had answered false after the future had completed")
        ELSE /\ cancelTrue' = (cancelTrue \/ e.val = 1) /\ l' = l + 1
-            /\ UNCHANGED <<starts, outcome, derefReturned, doneTrue, cancTrue, skip, nscen, invDerefRet, invDoneTrue, invCancTrue, invCancelTrue>>
+            /\ UNCHANGED <<starts, outcome, derefReturned, doneTrue, cancTrue, skip, nscen, invDerefRet, invDoneTrue, invCancTrue, invCancelTrue, uncAfter>>
      ELSE l' = l + 1 /\ UNCHANGED skip /\ Keep
 
 Done == l > Len(Trace) /\ UNCHANGED vars
